@@ -342,6 +342,7 @@ def empty_set(elem):
 
 
 py_in = z3.Function('py.in', Val, Val, z3.BoolSort())    # item in container
+fl = z3.Function('fl', z3.RealSort(), z3.RealSort())     # float rounding
 
 
 class SFunc(Sym):
